@@ -47,6 +47,7 @@ struct cfg5 {
 	vbi_sampling_par sp;
 	int spl, bpp;
 	int strict;
+	int short_line, long_line;
 };
 
 static const char *cfg_desc(const struct cfg5 *c)
@@ -65,6 +66,9 @@ static const char *cfg_desc(const struct cfg5 *c)
 static int payload_bytes_of(unsigned id)
 {
 	int i, best = 0;
+	/* services the shared table does not list: 2x Caption carries 4 bytes, WSS CPR-1204 20 bits */
+	if (id & VBI_SLICED_2xCAPTION_525) best = 4;
+	if ((id & VBI_SLICED_WSS_CPR1204) && best < 3) best = 3;
 	for (i = 0; i < C04_NSVC; i++)
 		if (id & c04_svc[i].family) {
 			int n = (c04_svc[i].payload_bits + 7) / 8;
@@ -111,6 +115,9 @@ static void gen_cfg(struct vf_rng *r, struct cfg5 *c)
 		c->set[c->nset++] = &c04_svc[i];
 	}
 	for (i = 0; i < c->nset; i++) c->req |= c->set[i]->id;
+	/* services outside the shared table: WSS CPR-1204 (never admitted: its table entry is disabled) and 2x Caption */
+	if (vf_chance(r, 1, 4)) c->req |= VBI_SLICED_WSS_CPR1204;
+	if (c->scanning == 525 && vf_chance(r, 1, 3)) c->req |= VBI_SLICED_2xCAPTION_525;
 	c->strict = vf_range(r, -1, 2);
 
 	switch (vf_below(r, 4)) {
@@ -133,15 +140,41 @@ static void gen_cfg(struct vf_rng *r, struct cfg5 *c)
 			c04_span(c->set[i], &a, &b);
 			if (b - a > longest) longest = b - a;
 		}
-		switch (vf_below(r, 5)) {
+		int maxspl = 2700;
+		switch (vf_below(r, 7)) {
 		case 0: c->spl = (int)ceil(longest * rate) + vf_range(r, -3, 12); break;
 		case 1: c->spl = (int)ceil((longest + 1e-6) * rate) + vf_range(r, -3, 12); break;
 		case 2: c->spl = (int)(52e-6 * rate); break;
 		case 3: c->spl = (int)(64e-6 * rate); break;
+		case 4: {
+			/* at the length the admission test of the library demands for one of the requested services (run-in, framing
+			 * code and payload bits at their nominal rates, plus 1 us when strict): just below, at, just above */
+			const struct svc *s = c->set[vf_below(r, (unsigned)c->nset)];
+			const _vbi_service_par *p = c04_lib_par(s->id);
+			double need = p ? (double)p->cri_bits / p->cri_rate + (double)(p->frc_bits + p->payload) / p->bit_rate : longest;
+			if (vf_chance(r, 1, 2)) need += 1e-6;
+			c->spl = (int)floor(need * rate) + vf_range(r, -3, 4);
+			c->short_line = 1;
+			break;
+		}
+		case 5:
+			/* lines longer than any scan line: the validation puts no limit on bytes_per_line, the bit slicer takes up to
+			 * 32767 samples */
+			if (vf_chance(r, 1, 2)) { c->spl = vf_range(r, 16, (int)(66e-6 * rate)); break; }
+			switch (vf_below(r, 16)) {
+			case 0: c->spl = vf_range(r, 8193, 32767); break;
+			case 1: case 2: c->spl = vf_range(r, 4097, 8192); break;
+			case 3: c->spl = 4096; break;
+			case 4: c->spl = (int[]){ 32767, 32766, 16384, 8192 }[vf_below(r, 4)]; break;
+			default: c->spl = vf_range(r, 2701, 4096); break;
+			}
+			maxspl = 32767;
+			c->long_line = 1;
+			break;
 		default: c->spl = vf_range(r, 16, (int)(66e-6 * rate)); break;
 		}
 		if (c->spl < 1) c->spl = 1;
-		if (c->spl > 2700) c->spl = 2700;
+		if (c->spl > maxspl) c->spl = maxspl;
 	}
 	sp->bytes_per_line = c->spl * c->bpp;
 	sp->offset = (int)(vf_unit(r) * 12e-6 * rate);
@@ -296,6 +329,9 @@ static void out_buffers_free(void)
 	while (nobuf > 0) EXACT_FREE(obuf[--nobuf].p);
 }
 
+static struct vf_rng *g_r;
+static void slice_points(const struct cfg5 *c, const struct svc *s, const _vbi_service_par *p, unsigned sample_offset, const uint8_t *line, const char *what);
+
 /* single line through both bit slicer interfaces; returns bit 0: new matched, bit 1: old matched */
 static int slice_line(const struct cfg5 *c, const struct svc *s, const uint8_t *line, unsigned sample_offset, const char *what, const char **func_out)
 {
@@ -334,6 +370,8 @@ static int slice_line(const struct cfg5 *c, const struct svc *s, const uint8_t *
 		}
 	}
 	vbi3_bit_slicer_delete(bs);
+	/* the same line through vbi3_bit_slicer_slice_with_points() */
+	if (ok && g_r && !vf_param[2] && vf_chance(g_r, 1, 6)) slice_points(c, s, p, sample_offset, line, what);
 	/* old interface: only when the line can hold the signal at all (its init has no way to refuse) */
 	if (sample_offset == 0) {
 		double need = (double)c->sp.sampling_rate * (p->payload + p->frc_bits) / p->bit_rate + (double)c->sp.sampling_rate * p->cri_bits / p->cri_rate;
@@ -406,6 +444,8 @@ static void shifted(const struct cfg5 *c, int k, int shift, uint8_t *y8)
 		y8[x] = (w >= 0 && w < wide_len[k]) ? wide[k][w] : blank_level;
 	}
 }
+
+#include "c05_ext.h"
 
 /* Sampling parameters at and beyond the edge of validity.  "Valid" is what the library admits
  * (vbi3_raw_decoder_new / _add_services, vbi_raw_decoder_add_services return services): whatever it admits, it
@@ -526,6 +566,7 @@ static void reconfigure(const struct cfg5 *c0, struct rx *x, struct vf_rng *r)
 		default: sp->count[0] += vf_range(r, 1, 3); sp->count[1] += vf_range(r, 0, 3); use_resize = (int)vf_below(r, 2); break;
 		}
 		if (sp->interlaced && sp->count[0] != sp->count[1]) sp->interlaced = 0;
+		if (sp->bytes_per_line / c.bpp > 32767) sp->bytes_per_line = 32767 * c.bpp;   /* the bit slicer's documented maximum (session 6: long lines) */
 		c.spl = sp->bytes_per_line / c.bpp;
 		scan = sp->count[0] + sp->count[1];
 		if (scan < 1 || scan > 200 || c.spl < 1) return;
@@ -589,7 +630,7 @@ static void borderline(const struct cfg5 *c0, struct vf_rng *r)
 	vbi3_raw_decoder *rd3;
 	vbi_raw_decoder rdo;
 	unsigned adm3 = 0, admo = 0;
-	int scan, row, what = (int)vf_below(r, 12), n;
+	int scan, row, what = (int)vf_below(r, 14), n;
 	size_t img_size;
 	uint8_t *img, *y8, *line;
 	vbi_sliced *out;
@@ -606,6 +647,18 @@ static void borderline(const struct cfg5 *c0, struct vf_rng *r)
 	case 8: sp->interlaced = !sp->interlaced; break;
 	case 9: sp->count[0] += (int)vf_range(r, 1, 3); break;
 	case 10: sp->interlaced = 1; sp->count[1] = sp->count[0] + (int)vf_range(r, 2, 5); break;
+	case 12:
+		/* session 6: the flags are vbi_bool, any non-zero value means TRUE: interlaced storage of two equally high fields */
+		sp->interlaced = (int[]){ 2, 3, -1, 255, 256, 0x40000000 }[vf_below(r, 6)];
+		if (sp->count[0] < 1) sp->count[0] = 1;
+		sp->count[1] = sp->count[0];
+		if (sp->start[0]) sp->start[1] = sp->start[0] + (c.scanning == 625 ? 313 : 263);
+		vf_count("borderline_bool_flag_not_0_1", 1);
+		break;
+	case 13:
+		sp->synchronous = (int[]){ 2, -1, 255, 256 }[vf_below(r, 4)];
+		vf_count("borderline_bool_flag_not_0_1", 1);
+		break;
 	default: sp->count[1] = 0; sp->count[0] = 1; break;
 	}
 	snprintf(desc, sizeof desc, "borderline parameters, perturbation %d", what);
@@ -627,6 +680,7 @@ static void borderline(const struct cfg5 *c0, struct vf_rng *r)
 	admo = vbi_raw_decoder_add_services(&rdo, c.req, c.strict);
 	if (!adm3 && !admo) { vf_count("borderline_rejected", 1); goto done; }
 	vf_count("borderline_admitted", 1);
+	if (what == 12) vf_count("borderline_interlaced_not_0_1_admitted", 1);
 
 	/* an image of exactly the size the parameters describe, every row a valid signal as far as the row is long */
 	img = EXACT_ALLOC(img_size, 1);
@@ -680,7 +734,10 @@ static int run_case(struct vf_rng *r, long idx)
 	(void)idx;
 
 	prefill_calls = 0;
+	g_r = r;
 	gen_cfg(r, &c);
+	/* lines longer than any scan line: the same work per case (the dense parts of the sweep stay) */
+	if (c.spl > 2700) { budget_decodes = budget_decodes * 1350 / c.spl; if (budget_decodes < 40) budget_decodes = 40; }
 	scan = c.sp.count[0] + c.sp.count[1];
 	img_size = (size_t)scan * (size_t)c.sp.bytes_per_line;
 	vf_sample("%s (%s)", cfg_desc(&c), FLAVOUR);
@@ -709,6 +766,10 @@ static int run_case(struct vf_rng *r, long idx)
 	}
 	vf_count("configs", 1);
 	if (!x.admitted) vf_count("configs_nothing_admitted", 1);
+	if (c.long_line) { vf_count("configs_long_line", 1); if (x.admitted) vf_count("configs_long_line_admitted", 1); if (c.spl > 8192) vf_count("configs_long_line_gt8192", 1); }
+	if (c.short_line) { vf_count("configs_service_boundary_line", 1); if (x.admitted) vf_count("configs_service_boundary_line_admitted", 1); }
+	if (c.req & VBI_SLICED_WSS_CPR1204) vf_count("configs_cpr1204_requested", 1);
+	if (c.req & VBI_SLICED_2xCAPTION_525) { vf_count("configs_caption2x_requested", 1); if (x.admitted & VBI_SLICED_2xCAPTION_525) vf_count("configs_caption2x_admitted", 1); }
 
 	/* rows that are the last line of the image / of each field */
 	if (c.sp.interlaced) { last_row[nlast++] = scan - 1; last_row[nlast++] = scan - 2; }
@@ -735,6 +796,8 @@ static int run_case(struct vf_rng *r, long idx)
 		long decodes = 0;
 		img = EXACT_ALLOC(img_size, end_aligned);
 		linebuf = EXACT_ALLOC((size_t)c.sp.bytes_per_line, end_aligned);
+		g_y8exact = EXACT_ALLOC((size_t)c.spl, end_aligned);
+		g_y8 = y8;
 
 		/* 1. plain hostile content on every line */
 		for (i = 0; i < 6; i++) {
@@ -833,6 +896,8 @@ static int run_case(struct vf_rng *r, long idx)
 			}
 		}
 		vf_count("decodes", decodes);
+		EXACT_FREE(g_y8exact);
+		g_y8exact = NULL;
 		EXACT_FREE(linebuf);
 		EXACT_FREE(img);
 	}
@@ -841,12 +906,17 @@ static int run_case(struct vf_rng *r, long idx)
 	if (vf_chance(r, 1, 2)) { int q; for (q = 0; q < 3; q++) borderline(&c, r); }
 	{ int q; for (q = 0; q < 2; q++) slicer_edge(&c, r); }
 	if (x.have_old) reconfigure(&c, &x, r);
+	/* session 6: custom bit slicer parameters, images with many rows (c05_ext.h) */
+	if (!vf_param[3]) { int q, nq = vf_param[4] > 0 ? (int)vf_param[4] : 8; for (q = 0; q < nq && !vf_failed(); q++) custom_params(r); }
+	if (!vf_param[5] && !vf_failed() && vf_chance(r, 1, x.admitted ? 2 : 10)) many_rows(&c, r);
 
 	vf_phase("vbi3_raw_decoder_delete");
 	vbi3_raw_decoder_delete(x.rd3);
 	vbi_raw_decoder_destroy(&x.rdo);
 	EXACT_FREE(out_alloc);
 	out_buffers_free();
+	pts_release();
+	g_y8 = NULL;
 	free(y8);
 	return nontrivial;
 }
